@@ -23,7 +23,7 @@ RULE = ('cases = generated histories through DB/Connection (changes, creations, 
 ASSUMPTIONS = ['datetime bounds are chosen >= 100 ms away from any transaction time',
                'after the pack, historical points older than the pack time are closed without being judged again']
 BUDGET = {'quick': {'examples': 2500, 'workers': 8},
-          'thorough': {'examples': 8000, 'workers': 16}}
+          'thorough': {'examples': 15000, 'workers': 16}}
 
 NAMES = ['a', 'b', 'c', 'd']
 ABSENT = None
